@@ -317,8 +317,8 @@ def main():
     for res in fam_results:
         for f in res['ORACLE']:
             # a family may serve several properties; its oracle messages name the property they decide
-            m = re.match(r'FAIL (C\d+)', f[2] if len(f) > 2 else '')
-            if m and m.group(1) != pid:
+            m = re.match(r'FAIL (C\d+(?:,C\d+)*)', f[2] if len(f) > 2 else '')
+            if m and pid not in m.group(1).split(','):
                 continue
             violations.append(({'property': pid, 'kind': 'property-oracle', 'family': res['family'], 'case': f[0],
                                 'input': f[1] if len(f) > 1 else '', 'what': f[2] if len(f) > 2 else '',
@@ -351,8 +351,8 @@ def main():
             except Exception as e:  # noqa
                 continue
             for f in res['ORACLE'][:50]:
-                m = re.match(r'FAIL (C\d+)', f[2] if len(f) > 2 else '')
-                if m and m.group(1) != pid:
+                m = re.match(r'FAIL (C\d+(?:,C\d+)*)', f[2] if len(f) > 2 else '')
+                if m and pid not in m.group(1).split(','):
                     continue
                 violations.append(({'property': pid, 'kind': 'property-oracle (found by search after break)',
                                     'family': fam['name'], 'case': f[0], 'input': f[1] if len(f) > 1 else '',
